@@ -250,7 +250,15 @@ pub fn render_token(tk: &Value) -> String {
         "C" => "<!-- comment -->".to_string(),
         "DUP" => format!("<node id=\"{}\" id=\"{}\"/>", nm(tk["id"].as_i64().unwrap_or(1)), nm(2)),
         "ENT" => "<node id=\"&nosuch;\"/>".to_string(),
-        "TRUNC" => "<node id=\"n1".to_string(),
+        "TRUNC" => match tk["at"].as_str().unwrap_or("tag") {
+            "edge" => "<edge source=\"n1\" target=\"n2\">".to_string(),
+            "data" => "<edge source=\"n1\" target=\"n2\"><data key=\"weight\">1.2".to_string(),
+            "dataalt" => "<edge source=\"n1\" target=\"n2\"><data key=\"d7\">".to_string(),
+            "dataother" => "<node id=\"n1\"><data key=\"colour\">re".to_string(),
+            "comment" => "<!-- unfinished".to_string(),
+            "cdata" => "<edge source=\"n1\" target=\"n2\"><data key=\"weight\"><![CDATA[1".to_string(),
+            _ => "<node id=\"n1".to_string(),
+        },
         "BADEND" => "</node>".to_string(),
         _ => String::new(),
     }
@@ -376,7 +384,7 @@ pub fn corruption_events<W: Write>(em: &mut Emitter<W>, ndocs: usize, stride: us
                     o => {
                         bad += 1;
                         if first_bad == json!({}) {
-                            first_bad = json!({"outcome": o, "pos": pos, "kind": kind, "doc": s, "panic": r.get("panic")});
+                            first_bad = json!({"outcome": o, "pos": pos, "kind": kind, "doc": s, "panic": r.get("panic").cloned().unwrap_or(json!(""))});
                         }
                     }
                 }
